@@ -47,7 +47,10 @@ var RepoPkgs = []string{"errors", "gen", "graph", "transformer", "utils", "valid
 
 // Load loads all repository packages with syntax and types for all dependencies. When needSSA is
 // false only the syntax trees and type information are produced (faster).
-func Load(needSSA bool) (*Prog, error) {
+func Load(needSSA bool) (*Prog, error) { return LoadPatterns(needSSA, "./...") }
+
+// LoadPatterns loads the given package patterns (relative to /repo/pkg/go).
+func LoadPatterns(needSSA bool, patterns ...string) (*Prog, error) {
 	root := RepoRoot()
 	dir := filepath.Join(root, "pkg", "go")
 	mode := packages.NeedName | packages.NeedFiles | packages.NeedCompiledGoFiles | packages.NeedImports |
@@ -59,7 +62,7 @@ func Load(needSSA bool) (*Prog, error) {
 	} else {
 		cfg.BuildFlags = []string{"-tags=verif"}
 	}
-	initial, err := packages.Load(cfg, "./...")
+	initial, err := packages.Load(cfg, patterns...)
 	if err != nil {
 		return nil, fmt.Errorf("packages.Load: %w", err)
 	}
@@ -87,12 +90,20 @@ func Load(needSSA bool) (*Prog, error) {
 			p.Fset = pk.Fset
 		}
 	}
+	if len(p.Pkgs) == 0 {
+		return nil, fmt.Errorf("no repository package loaded for %v", patterns)
+	}
 	for _, want := range RepoPkgs {
+		if len(patterns) != 1 || patterns[0] != "./..." {
+			break
+		}
 		if p.Pkgs[want] == nil {
 			return nil, fmt.Errorf("repository package %q not loaded (got %d packages)", want, len(p.Pkgs))
 		}
-		if p.Pkgs[want].Types == nil || len(p.Pkgs[want].Syntax) == 0 {
-			return nil, fmt.Errorf("repository package %q has no syntax/types", want)
+	}
+	for short, pk := range p.Pkgs {
+		if pk.Types == nil || len(pk.Syntax) == 0 {
+			return nil, fmt.Errorf("repository package %q has no syntax/types", short)
 		}
 	}
 	if needSSA {
